@@ -10,17 +10,25 @@ func isNullCell(c *table.Cell) bool {
 }
 
 type optShape struct {
-	mand qclause
-	opts []qclause
+	mand     qclause
+	opts     []qclause
+	temporal bool
+	filter   string                  // FILTER clause on a binding of the mandatory clause
+	keep     func(d *dspec) bool     // the mandatory matches the FILTER keeps
 }
 
 var c10Shapes = []optShape{
-	{qclause{s: bS, p: cA, o: bO}, []qclause{{s: bO, p: cA, o: bZ}}},                  // optional continues from ?o
-	{qclause{s: bS, p: cA, o: bO}, []qclause{{s: bS, p: pos{cb: 'b'}, o: bZ}}},        // optional shares ?s
-	{qclause{s: bS, p: cA, o: bO}, []qclause{{s: bZ, p: pos{cb: 'b'}, o: bT}}},        // disjoint bindings
-	{qclause{s: bS, p: cA, o: bO}, []qclause{{s: bS, p: pos{cb: 'b'}, o: bO}}},        // optional adds no binding
-	{qclause{s: bS, p: cA, o: bO}, []qclause{{s: bS, p: pos{cb: 'b'}, o: bZ}, {s: bT, p: cA, o: bZ}}}, // second optional shares the (maybe NULL) ?z
-	{qclause{s: bS, p: cA, o: bO}, []qclause{{s: bS, p: pos{cb: 'b'}, o: bZ}, {s: bO, p: pos{cb: 'b'}, o: bT}}}, // two independent optionals
+	{mand: qclause{s: bS, p: cA, o: bO}, opts: []qclause{{s: bO, p: cA, o: bZ}}},                  // optional continues from ?o
+	{mand: qclause{s: bS, p: cA, o: bO}, opts: []qclause{{s: bS, p: pos{cb: 'b'}, o: bZ}}},        // optional shares ?s
+	{mand: qclause{s: bS, p: cA, o: bO}, opts: []qclause{{s: bZ, p: pos{cb: 'b'}, o: bT}}},        // disjoint bindings
+	{mand: qclause{s: bS, p: cA, o: bO}, opts: []qclause{{s: bS, p: pos{cb: 'b'}, o: bO}}},        // optional adds no binding
+	{mand: qclause{s: bS, p: cA, o: bO}, opts: []qclause{{s: bS, p: pos{cb: 'b'}, o: bZ}, {s: bT, p: cA, o: bZ}}}, // second optional shares the (maybe NULL) ?z
+	{mand: qclause{s: bS, p: cA, o: bO}, opts: []qclause{{s: bS, p: pos{cb: 'b'}, o: bZ}, {s: bO, p: pos{cb: 'b'}, o: bT}}}, // two independent optionals
+	// a FILTER on the mandatory clause does not constrain the lookups of the optional one
+	{mand: qclause{s: bS, p: bP, o: bO}, opts: []qclause{{s: bO, p: pos{bind: "q"}, o: bZ}}, temporal: true, filter: "filter isTemporal(?p)",
+		keep: func(d *dspec) bool { return d.pk == 1 }},
+	{mand: qclause{s: bS, p: bP, o: bO}, opts: []qclause{{s: bS, p: pos{bind: "q"}, o: bZ}}, temporal: true, filter: "filter isImmutable(?p)",
+		keep: func(d *dspec) bool { return d.pk == 0 }},
 }
 
 func optText(sh optShape) string {
@@ -37,6 +45,9 @@ func optText(sh optShape) string {
 	for _, o := range sh.opts {
 		q += " . optional { " + o.text() + " }"
 	}
+	if sh.filter != "" {
+		q += " . " + sh.filter
+	}
 	return q + " } ;"
 }
 
@@ -52,7 +63,7 @@ func HarnessC10Optional() {
 	K := 1 + verif.Choice("k", verif.Param("K", 2))
 	data := make([]*dspec, K)
 	for i := range data {
-		data[i] = symData("d", false)
+		data[i] = symData("d", sh.temporal)
 	}
 	// a literal bound to a binding that an optional clause uses as subject is the
 	// planner defect recorded under C03
@@ -93,6 +104,9 @@ func HarnessC10Optional() {
 	for i, d := range data {
 		e := env{}
 		c := verif.And(first[i], sh.mand.matches(d, e))
+		if sh.keep != nil && !sh.keep(d) {
+			c = false
+		}
 		found := false
 		for x := 0; x < tbl.NumRows(); x++ {
 			r, _ := tbl.Row(x)
@@ -126,6 +140,9 @@ func HarnessC10Optional() {
 	for i, d := range data {
 		e0 := env{}
 		cm := verif.And(first[i], sh.mand.matches(d, e0))
+		if sh.keep != nil && !sh.keep(d) {
+			cm = false
+		}
 		anyMatch := false
 		for j, d2 := range data {
 			e := env{}
